@@ -193,6 +193,7 @@ type c17Case struct {
 	Part     string     `json:"part"`
 	Spec     *vgSpec    `json:"spec,omitempty"`
 	Specs    []*vgSpec  `json:"specs,omitempty"`
+	GI       *vgGISpec  `json:"gi,omitempty"`
 	Layout   *c17Layout `json:"layout,omitempty"`
 	X        int        `json:"x,omitempty"`
 	Ref      string     `json:"ref,omitempty"`
@@ -787,6 +788,43 @@ func c17Variants(res *vx.Result, st *c17Stats, only *c17Case) {
 
 // ---------------------------------------------------------------------------------------------
 
+// (d) repetition on the generic-type/interface family (gen_test.go): the analyzer walks the known
+// interfaces in map order, so the same package is analysed several times, on one checked package
+// and on freshly checked copies; the report must be one value.
+func c17RepeatGI(res *vx.Result, st *c17Stats, g *vgGISpec, rounds int) {
+	files := []c17File{{vgSrcFile: vgSrcFile{Name: "/vg/p.go", Src: g.Source()}}}
+	key := g.Key()
+	var first []string
+	for copyN := 0; copyN < 2; copyN++ {
+		vs, terr, pmsg := c17Analyze(files, rounds)
+		if terr != nil {
+			c17GeneratorBug(res, st, key, terr, files)
+			return
+		}
+		cs := c17Case{Part: "repeatgi", GI: g, Sources: c17Sources(files)}
+		if pmsg != "" {
+			res.Violate("panic|"+key, "unused.Analyzer panicked/failed: "+pmsg, cs)
+			return
+		}
+		for _, v := range vs {
+			st.layouts.Add(1)
+			res.Eval(1)
+			if first == nil {
+				first = v.Unused
+				if first == nil {
+					first = []string{}
+				}
+				continue
+			}
+			st.comparisons.Add(1)
+			if !c17Eq(first, v.Unused) {
+				res.Violate("repeat|"+key, fmt.Sprintf("repeating the analysis of the same package gives different reports: %v vs %v\n%s", first, v.Unused, files[0].Src), cs)
+				return
+			}
+		}
+	}
+}
+
 func c17Bounds() *vgBounds {
 	b := &vgBounds{Forms: vgAllForms(), Kinds: append(vgAllKinds(), vkVarAnon)}
 	if vx.Thorough() {
@@ -823,6 +861,8 @@ func TestVerifC17(t *testing.T) {
 			}
 		case "variants":
 			c17Variants(res, st, &cs)
+		case "repeatgi":
+			c17RepeatGI(res, st, cs.GI, 16)
 		}
 		res.States, res.Transitions = st.layouts.Load()+1, st.comparisons.Load()
 		return
@@ -832,6 +872,7 @@ func TestVerifC17(t *testing.T) {
 	cpu0 := vgCPU()
 	part := os.Getenv("VERIF_C17_PART") // development aid: "ab" or "c"
 
+	var giDone atomic.Int64
 	var vwg sync.WaitGroup
 	if part != "ab" {
 		vwg.Add(1)
@@ -839,6 +880,31 @@ func TestVerifC17(t *testing.T) {
 			defer vwg.Done()
 			c17Variants(res, st, nil)
 		}()
+	}
+	if part != "c" {
+		gis := vgGIEnumerate(3)
+		var next atomic.Int64
+		var wg sync.WaitGroup
+		for w := 0; w < runtime.GOMAXPROCS(0); w++ {
+			wg.Add(1)
+			go func() {
+				defer wg.Done()
+				for {
+					i := int(next.Add(1)) - 1
+					if i >= len(gis) {
+						return
+					}
+					if res.Expired() {
+						res.NotExhaustive("time budget reached in part (d)")
+						return
+					}
+					c17RepeatGI(res, st, gis[i], vx.Pick(3, 6))
+					giDone.Add(1)
+				}
+			}()
+		}
+		wg.Wait()
+		res.Count("repetition_generic_interface_family_packages", giDone.Load())
 	}
 	b := c17Bounds()
 	completed := "skipped"
